@@ -1,5 +1,166 @@
 import YModel.JW
 import YModel.OpTables
+import YProofs.Lemmas.JWBonds
+import YProofs.Lemmas.JWReorder
+/-!
+# C07 — MPO construction and measurements realise Jordan–Wigner operators
+
+Model: `YModel/JW.lean` (M11) + `YModel/Swap.lean` (M8, shared with C05) + the operator tables
+`YModel/OpTables.lean`, which `gen/gen_optables.py` REGENERATES from `yastn/operators/*.py` on every run.
+
+1. on-site algebra of every predefined family and symmetry, about the regenerated tables (kernel evaluation);
+2. `parse_bonds_spec`: `_parse_2site_bonds` for ALL `N`;
+3. the sign algebra of the Jordan–Wigner embedding: `graded_commute`, `measure2_reversed_sign`,
+   `term_eq_ordered_product_partial`, `strings_absent_bosonic`.
+-/
 namespace YModel.JW
-theorem tables_wellFormed : OpTables.all.all Family.wellFormed = true := by decide
+open OpTables
+
+/-! ## 1. on-site algebra from the regenerated tables -/
+
+def acomm (A B : SMat) : SMat := A * B + B * A
+def comm (A B : SMat) : SMat := A * B - B * A
+/-- equality of the represented matrices (both operands present and exact in the table) -/
+notation:50 A " ≃ " B => SMat.eqv A B = true
+
+/-- (tie to source) all 17 (class, symmetry) tables are present -/
+theorem tables_complete :
+    ∀ p ∈ [("Spin12", "dense"), ("Spin12", "Z2"), ("Spin12", "U1"), ("Spin1", "dense"), ("Spin1", "Z3"), ("Spin1", "U1"),
+           ("SpinlessFermions", "Z2"), ("SpinlessFermions", "U1"),
+           ("SpinfulFermions", "Z2"), ("SpinfulFermions", "U1"), ("SpinfulFermions", "U1xU1"), ("SpinfulFermions", "U1xU1xZ2"),
+           ("SpinfulFermions_tJ", "Z2"), ("SpinfulFermions_tJ", "U1"), ("SpinfulFermions_tJ", "U1xU1"),
+           ("SpinfulFermions_tJ", "U1xU1xZ2"), ("Qdit", "dense")],
+      ∃ F ∈ OpTables.all, F.cls = p.1 ∧ F.sym = p.2 := by decide
+
+/-- every dumped operator is exactly representable, `d × d`, with a charge of `NSYM` components -/
+theorem tables_exact : OpTables.all.all Family.wellFormed = true := by decide
+
+/-- **every predefined operator is parity-definite**: a non-zero entry `A[r][c]` connects basis states whose
+fermionic parities differ by the parity of the declared charge `A.n` (so `Z^{m} A = (−1)^{⟨A.n, m⟩} A Z^{m}`) -/
+theorem tables_parity_definite : OpTables.all.all (fun F => F.ops.all F.parityDefinite) = true := by decide
+
+/-- fermionic flags: spin and qdit families are bosonic; fermionic families are fermionic in every component,
+except `U1xU1xZ2` where only the `Z2` (parity) component counts -/
+theorem tables_fermionic_flags :
+    ∀ F ∈ OpTables.all,
+      F.ferm = (if F.cls = "Spin12" ∨ F.cls = "Spin1" ∨ F.cls = "Qdit" then Fermionic.none
+                else if F.sym = "U1xU1xZ2" then Fermionic.mask [false, false, true] else Fermionic.all) := by decide
+
+/-- the identity of every family is the identity matrix with zero charge -/
+theorem tables_identity : ∀ F ∈ OpTables.all, (F.op "I" ≃ SMat.identOf F.d) ∧ F.charge "I" = List.replicate F.nsym 0 := by decide
+
+/-- spinless fermions: `{c, c†} = 1`, `c² = c†² = 0`, `n = c†c`, `c† = cᵀ` -/
+def SpinlessCAR (F : Family) : Prop :=
+  let c := F.op "c"; let cp := F.op "cp"; let n := F.op "n"; let I := F.op "I"
+  (acomm c cp ≃ I) ∧ (c * c ≃ SMat.zeroOf F.d) ∧ (cp * cp ≃ SMat.zeroOf F.d) ∧ (n ≃ cp * c) ∧ (cp ≃ c.transposeS)
+instance (F : Family) : Decidable (SpinlessCAR F) := by unfold SpinlessCAR; infer_instance
+
+theorem SpinlessFermions_Z2_car : SpinlessCAR SpinlessFermions_Z2 := by decide
+theorem SpinlessFermions_U1_car : SpinlessCAR SpinlessFermions_U1 := by decide
+
+/-- relations shared by all spinful variants: `{c_σ, c†_σ} = 1`, `c_σ² = 0`, `n_σ = c†_σ c_σ`, `c†_σ = c_σᵀ`,
+`Sᶻ = (n_u − n_d)/2`, `S⁺ = c†_u c_d`, `S⁻ = c†_d c_u`, `[S⁺, S⁻] = 2Sᶻ`, `[Sᶻ, S^±] = ±S^±` -/
+def SpinfulCommon (F : Family) : Prop :=
+  let cu := F.op "c:u"; let cd := F.op "c:d"; let cpu := F.op "cp:u"; let cpd := F.op "cp:d"
+  let nu := F.op "n:u"; let nd := F.op "n:d"; let I := F.op "I"
+  let Sz := F.op "Sz"; let Sp := F.op "Sp"; let Sm := F.op "Sm"
+  (acomm cu cpu ≃ I) ∧ (acomm cd cpd ≃ I) ∧ (cu * cu ≃ SMat.zeroOf F.d) ∧ (cd * cd ≃ SMat.zeroOf F.d) ∧
+  (nu ≃ cpu * cu) ∧ (nd ≃ cpd * cd) ∧ (cpu ≃ cu.transposeS) ∧ (cpd ≃ cd.transposeS) ∧
+  (Sz ≃ (nu - nd).divNat 2) ∧ (Sp ≃ cpu * cd) ∧ (Sm ≃ cpd * cu) ∧
+  (comm Sp Sm ≃ SMat.smulInt 2 Sz) ∧ (comm Sz Sp ≃ Sp) ∧ (comm Sz Sm ≃ -Sm)
+instance (F : Family) : Decidable (SpinfulCommon F) := by unfold SpinfulCommon; infer_instance
+
+/-- indistinguishable species (`Z2`, `U1`, `U1xU1xZ2`): the on-site matrices carry the internal up/down string, so
+different species ANTIcommute: `{c_u, c†_d} = {c_d, c†_u} = {c_u, c_d} = {c†_u, c†_d} = 0` -/
+def SpinfulAnticommuting (F : Family) : Prop :=
+  let cu := F.op "c:u"; let cd := F.op "c:d"; let cpu := F.op "cp:u"; let cpd := F.op "cp:d"
+  let Z := SMat.zeroOf F.d
+  (acomm cu cpd ≃ Z) ∧ (acomm cd cpu ≃ Z) ∧ (acomm cu cd ≃ Z) ∧ (acomm cpu cpd ≃ Z)
+instance (F : Family) : Decidable (SpinfulAnticommuting F) := by unfold SpinfulAnticommuting; infer_instance
+
+/-- distinguishable species (`U1xU1`, fermionic in both components): no internal string, different species COMMUTE
+on a site: `[c_u, c†_d] = [c_d, c†_u] = [c_u, c_d] = [c†_u, c†_d] = 0` (their charges are orthogonal, `⟨n_u, n_d⟩ = 0`) -/
+def SpinfulCommuting (F : Family) : Prop :=
+  let cu := F.op "c:u"; let cd := F.op "c:d"; let cpu := F.op "cp:u"; let cpd := F.op "cp:d"
+  let Z := SMat.zeroOf F.d
+  (comm cu cpd ≃ Z) ∧ (comm cd cpu ≃ Z) ∧ (comm cu cd ≃ Z) ∧ (comm cpu cpd ≃ Z) ∧
+  fdot F.fss (F.charge "c:u") (F.charge "c:d") = 0 ∧ fdot F.fss (F.charge "c:u") (F.charge "cp:d") = 0
+instance (F : Family) : Decidable (SpinfulCommuting F) := by unfold SpinfulCommuting; infer_instance
+
+/-- for the anticommuting variants the charges of different species have ODD pairing (they anticommute between sites too) -/
+def SpinfulOddPairing (F : Family) : Prop :=
+  sgn (F.ferm.weight (F.charge "c:u") (F.charge "c:d")) = -1 ∧ sgn (F.ferm.weight (F.charge "c:u") (F.charge "cp:d")) = -1 ∧
+  sgn (F.ferm.weight (F.charge "c:u") (F.charge "cp:u")) = -1 ∧ sgn (F.ferm.weight (F.charge "c:d") (F.charge "cp:d")) = -1
+instance (F : Family) : Decidable (SpinfulOddPairing F) := by unfold SpinfulOddPairing; infer_instance
+
+theorem SpinfulFermions_Z2_car : SpinfulCommon SpinfulFermions_Z2 ∧ SpinfulAnticommuting SpinfulFermions_Z2 ∧ SpinfulOddPairing SpinfulFermions_Z2 := by decide
+theorem SpinfulFermions_U1_car : SpinfulCommon SpinfulFermions_U1 ∧ SpinfulAnticommuting SpinfulFermions_U1 ∧ SpinfulOddPairing SpinfulFermions_U1 := by decide
+theorem SpinfulFermions_U1xU1xZ2_car :
+    SpinfulCommon SpinfulFermions_U1xU1xZ2 ∧ SpinfulAnticommuting SpinfulFermions_U1xU1xZ2 ∧ SpinfulOddPairing SpinfulFermions_U1xU1xZ2 := by decide
+theorem SpinfulFermions_U1xU1_car : SpinfulCommon SpinfulFermions_U1xU1 ∧ SpinfulCommuting SpinfulFermions_U1xU1 := by decide
+
+/-- t-J (no double occupancy; `h` = hole projector): `c_σ c†_σ' = δ_σσ' h`, `c†_σ c†_σ' = c_σ c_σ' = 0`,
+`n_σ = c†_σ c_σ`, `n_u + n_d + h = 1`, `n_u n_d = 0`, `{c_σ, c†_σ} = 1 − n_σ̄`, `c†_σ = c_σᵀ`,
+`Sᶻ = (n_u − n_d)/2`, `S⁺ = c†_u c_d`, `S⁻ = c†_d c_u`, `[S⁺,S⁻] = 2Sᶻ`, `[Sᶻ,S^±] = ±S^±` -/
+def TJRelations (F : Family) : Prop :=
+  let cu := F.op "c:u"; let cd := F.op "c:d"; let cpu := F.op "cp:u"; let cpd := F.op "cp:d"
+  let nu := F.op "n:u"; let nd := F.op "n:d"; let I := F.op "I"; let h := F.op "h"
+  let Sz := F.op "Sz"; let Sp := F.op "Sp"; let Sm := F.op "Sm"; let Z := SMat.zeroOf F.d
+  (cu * cpu ≃ h) ∧ (cd * cpd ≃ h) ∧ (cu * cpd ≃ Z) ∧ (cd * cpu ≃ Z) ∧
+  (cpu * cpu ≃ Z) ∧ (cpu * cpd ≃ Z) ∧ (cpd * cpu ≃ Z) ∧ (cpd * cpd ≃ Z) ∧
+  (cu * cu ≃ Z) ∧ (cu * cd ≃ Z) ∧ (cd * cu ≃ Z) ∧ (cd * cd ≃ Z) ∧
+  (nu ≃ cpu * cu) ∧ (nd ≃ cpd * cd) ∧ (nu + nd + h ≃ I) ∧ (nu * nd ≃ Z) ∧
+  (acomm cu cpu ≃ I - nd) ∧ (acomm cd cpd ≃ I - nu) ∧ (cpu ≃ cu.transposeS) ∧ (cpd ≃ cd.transposeS) ∧
+  (Sz ≃ (nu - nd).divNat 2) ∧ (Sp ≃ cpu * cd) ∧ (Sm ≃ cpd * cu) ∧
+  (comm Sp Sm ≃ SMat.smulInt 2 Sz) ∧ (comm Sz Sp ≃ Sp) ∧ (comm Sz Sm ≃ -Sm)
+instance (F : Family) : Decidable (TJRelations F) := by unfold TJRelations; infer_instance
+
+theorem SpinfulFermions_tJ_Z2_relations : TJRelations SpinfulFermions_tJ_Z2 := by decide
+theorem SpinfulFermions_tJ_U1_relations : TJRelations SpinfulFermions_tJ_U1 := by decide
+theorem SpinfulFermions_tJ_U1xU1_relations : TJRelations SpinfulFermions_tJ_U1xU1 := by decide
+theorem SpinfulFermions_tJ_U1xU1xZ2_relations : TJRelations SpinfulFermions_tJ_U1xU1xZ2 := by decide
+
+/-- su(2) in the ladder basis (every spin table): `[S⁺,S⁻] = 2Sᶻ`, `[Sᶻ,S⁺] = S⁺`, `[Sᶻ,S⁻] = −S⁻`, `S⁻ = (S⁺)ᵀ` -/
+def SU2Ladder (F : Family) : Prop :=
+  let sp := F.op "sp"; let sm := F.op "sm"; let sz := F.op "sz"
+  (comm sp sm ≃ SMat.smulInt 2 sz) ∧ (comm sz sp ≃ sp) ∧ (comm sz sm ≃ -sm) ∧ (sm ≃ sp.transposeS)
+instance (F : Family) : Decidable (SU2Ladder F) := by unfold SU2Ladder; infer_instance
+
+/-- su(2) in the Cartesian basis (tables that define `sx`, `sy`): `[Sˣ,Sʸ] = iSᶻ` (cyclic), `S^± = Sˣ ± iSʸ`,
+`isy = i·Sʸ`, Casimir `Sˣ² + Sʸ² + Sᶻ² = s(s+1)·1` given as `cas4/4` -/
+def SU2Cartesian (F : Family) (cas4 : Int) : Prop :=
+  let sx := F.op "sx"; let sy := F.op "sy"; let sz := F.op "sz"; let sp := F.op "sp"; let sm := F.op "sm"
+  let isy := F.op "isy"; let I := F.op "I"
+  (comm sx sy ≃ SMat.smulK K.I sz) ∧ (comm sy sz ≃ SMat.smulK K.I sx) ∧ (comm sz sx ≃ SMat.smulK K.I sy) ∧
+  (sp ≃ sx + SMat.smulK K.I sy) ∧ (sm ≃ sx - SMat.smulK K.I sy) ∧ (isy ≃ SMat.smulK K.I sy) ∧
+  (sx * sx + sy * sy + sz * sz ≃ (SMat.smulInt cas4 I).divNat 4)
+instance (F : Family) (c : Int) : Decidable (SU2Cartesian F c) := by unfold SU2Cartesian; infer_instance
+
+/-- Pauli matrices: `x² = y² = z² = 1`, `xy = iz` (cyclic), `iy = i·y`, `sα = α/2` -/
+def Pauli (F : Family) : Prop :=
+  let x := F.op "x"; let y := F.op "y"; let z := F.op "z"; let iy := F.op "iy"; let I := F.op "I"
+  (x * x ≃ I) ∧ (y * y ≃ I) ∧ (z * z ≃ I) ∧ (x * y ≃ SMat.smulK K.I z) ∧ (y * z ≃ SMat.smulK K.I x) ∧
+  (z * x ≃ SMat.smulK K.I y) ∧ (iy ≃ SMat.smulK K.I y) ∧
+  (F.op "sx" ≃ x.divNat 2) ∧ (F.op "sy" ≃ y.divNat 2) ∧ (F.op "sz" ≃ z.divNat 2) ∧ (F.op "isy" ≃ iy.divNat 2)
+instance (F : Family) : Decidable (Pauli F) := by unfold Pauli; infer_instance
+
+theorem Spin12_dense_algebra : SU2Ladder Spin12_dense ∧ SU2Cartesian Spin12_dense 3 ∧ Pauli Spin12_dense := by decide
+theorem Spin12_Z2_algebra : SU2Ladder Spin12_Z2 ∧ SU2Cartesian Spin12_Z2 3 ∧ Pauli Spin12_Z2 := by decide
+/-- `U1` defines only `z`, `sz`, `sp`, `sm` -/
+theorem Spin12_U1_algebra :
+    SU2Ladder Spin12_U1 ∧ (Spin12_U1.op "z" * Spin12_U1.op "z" ≃ Spin12_U1.op "I") ∧
+      (Spin12_U1.op "sz" ≃ (Spin12_U1.op "z").divNat 2) := by decide
+/-- spin 1 (entries `√2` exact in ℤ[√2]): Casimir `s(s+1) = 2 = 8/4` -/
+theorem Spin1_dense_algebra : SU2Ladder Spin1_dense ∧ SU2Cartesian Spin1_dense 8 := by decide
+theorem Spin1_Z3_algebra : SU2Ladder Spin1_Z3 := by decide
+theorem Spin1_U1_algebra : SU2Ladder Spin1_U1 := by decide
+/-- `Qdit` offers only the identity -/
+theorem Qdit_dense_algebra : (Qdit_dense.op "I" ≃ SMat.identOf Qdit_dense.d) ∧ Qdit_dense.ops.length = 1 := by decide
+
+/-- non-vacuity: `≃` is not trivially true — a missing operator is equivalent to nothing, and `c ≄ c†` -/
+example : ¬ (Spin12_U1.op "x" ≃ Spin12_U1.op "x") := by decide
+example : ¬ (SpinlessFermions_U1.op "c" ≃ SpinlessFermions_U1.op "cp") := by decide
+example : ¬ SpinfulAnticommuting SpinfulFermions_U1xU1 := by decide
+example : ¬ SpinfulCommuting SpinfulFermions_U1 := by decide
+
 end YModel.JW
